@@ -11,7 +11,7 @@ pub fn def() -> PropDef {
     PropDef {
         info: PropInfo {
             id: "C19",
-            rule: "argument tuples from boundary-heavy u64 pools (0, 1, 15, 16, 16^k-1, 16^k, 2^52+-1, 2^53, perfect squares +-1, 2^63, u64::MAX, random): gather_bytes vs the shift/or formula; memfrob on buffers of 0-256 bytes inside a canary arena (exactly len bytes XOR 0x2a, neighbours untouched, twice = identity, returns 0); strcmp on NUL-terminated strings with common prefixes (0 iff equal, |a-b| of the first differing bytes, all-ones for a null pointer); sqrti vs (x as f64).sqrt() truncated and vs the exact integer square root below 2^52; bpf_trace_printf with fd 1 redirected to a pipe (return value == number of bytes read from the pipe, text == the three hexadecimal numbers); rand(min,max) in [min,max] when min<max; none may panic. Non-trivial = tuple with a value >= 2^32 or a buffer of >= 1 byte; distinct by hash of (helper, arguments).",
+            rule: "argument tuples from boundary-heavy u64 pools (0, 1, 15, 16, 16^k-1, 16^k, 2^52+-1, 2^53, perfect squares +-1, 2^63, u64::MAX, random): gather_bytes vs the shift/or formula; memfrob on buffers of 0-256 bytes inside a canary arena (exactly len bytes XOR 0x2a, neighbours untouched, twice = identity, returns 0); strcmp on NUL-terminated strings with common prefixes (0 iff equal, |a-b| of the first differing bytes, all-ones for a null pointer); sqrti vs (x as f64).sqrt() truncated and vs the exact integer square root below 2^52, on boundary pools, on k^2 +- d for k of every bit length, and on values that are both within a few ulps of a square and one below / on / one above a rounding tie of the u64 -> f64 conversion; bpf_trace_printf with fd 1 redirected to a pipe (return value == number of bytes read from the pipe, text == the three hexadecimal numbers); rand(min,max) in [min,max] when min<max; none may panic. Non-trivial = tuple with a value >= 2^32 or a buffer of >= 1 byte; distinct by hash of (helper, arguments).",
             assumptions: &["println! writes through file descriptor 1 of the process", "bpf_ktime_getns is not part of the property"],
         },
         run,
@@ -34,6 +34,31 @@ fn big() -> impl Strategy<Value = u64> {
         3 => prop::sample::select(pool),
         3 => any::<u64>(),
         1 => (0u32..64, any::<u64>()).prop_map(|(s, x)| x >> s),
+    ]
+}
+
+/// Arguments for sqrti: the result changes at perfect squares and the u64 -> f64 conversion rounds
+/// (from 2^53 on) at half-way points between representable doubles - generate both kinds of
+/// boundary, and their combination: values just below / above a square k^2 (k of every bit length)
+/// that sit one below, exactly on and one above a rounding tie, with either parity of the kept bit.
+fn sqrt_arg() -> impl Strategy<Value = u64> {
+    let k = (1u32..=32, any::<u32>()).prop_map(|(bits, r)| ((r as u64) | 1 << 31) >> (32 - bits)).boxed();
+    prop_oneof![
+        2 => big(),
+        2 => (k.clone(), -4200i64..=4200).prop_map(|(k, d)| (k * k).wrapping_add(d as u64)),
+        3 => (k, any::<u16>(), 0u64..3, any::<bool>()).prop_map(|(k, d, t, above)| {
+            let sq = k * k;
+            let span = |x: u64| -> u64 {
+                let e = 63 - x.max(1).leading_zeros() as u64;
+                if e < 53 { 1 } else { 1u64 << (e - 52) }
+            };
+            let x0 = if above { sq.wrapping_add(d as u64 % (4 * span(sq))) } else { sq.wrapping_sub(1 + d as u64 % (4 * span(sq))) };
+            let ulp = span(x0);
+            if ulp == 1 {
+                return x0;
+            }
+            (x0 & !(ulp - 1)).wrapping_add(ulp / 2).wrapping_add(t).wrapping_sub(1)
+        }),
     ]
 }
 
@@ -70,7 +95,7 @@ fn hcase() -> impl Strategy<Value = HCase> {
             b = nb2;
             HCase::Strcmp { a, b, null_a: na == 0, null_b: nb == 0 }
         }),
-        3 => big().prop_map(HCase::Sqrti),
+        3 => sqrt_arg().prop_map(HCase::Sqrti),
         1 => [big(), big(), big()].prop_map(HCase::Printf),
         2 => (big(), big(), any::<u8>()).prop_map(|(a, b, k)| HCase::Rand(a, b, k)),
     ]
@@ -291,6 +316,19 @@ fn run(ctx: &Ctx) {
                 HCase::Rand(a, b, _) => ("rand", *a >= 1 << 32 || *b >= 1 << 32),
             };
             st.class(name);
+            if let HCase::Sqrti(x) = c {
+                if *x >= 1 << 53 {
+                    let ulp = 1u64 << (63 - x.leading_zeros() as u64 - 52);
+                    let r = x & (ulp - 1);
+                    if r + 1 >= ulp / 2 && r <= ulp / 2 + 1 {
+                        st.class("sqrti:at-conversion-tie+-1");
+                        let k = isqrt(*x);
+                        if ((k as u128 + 1) * (k as u128 + 1) - *x as u128) <= 4 * ulp as u128 || x - k * k <= 4 * ulp {
+                            st.class("sqrti:at-conversion-tie-and-near-square");
+                        }
+                    }
+                }
+            }
             if nontriv {
                 st.nontrivial(fnv_str(&format!("{c:?}")));
             }
